@@ -1,6 +1,6 @@
 SPECIFICATION Spec
 CONSTANTS
-  FeatLo = 0 FeatHi = 4 OptSets <- OptAll LevSets <- LevSome
+  FeatLo = 0 FeatHi = 3 OptSets <- OptAll LevSets <- LevSome
   Orders = {"std", "rev", "mix", "featfirst"}
   Casings = {"lower", "upper", "mixed"}
   Encs = {"pm", "zo", "bool"}
